@@ -291,7 +291,7 @@ def make_proofs(clean=False, timeout=3000):
             run(["coq_makefile", "-f", "_CoqProject", "-o", "Makefile"], cwd=COQ, check=True)
         if clean:
             run(["make", "clean"], cwd=COQ, timeout=300)
-        p = run(["make", "-j16"], cwd=COQ, timeout=timeout)
+        p = run(["make", "-k", "-j16"], cwd=COQ, timeout=timeout)
         return p.returncode == 0, (p.stdout.decode(errors="replace") + p.stderr.decode(errors="replace"))[-6000:]
     finally:
         fcntl.flock(lock, fcntl.LOCK_UN)
